@@ -1616,7 +1616,7 @@ def c16(ctx):
         rel_ = blocks_reaching(lambda s_, f_: (s_.t['func'].get('fn') or '').endswith('Desync::desync'))
         if not wakes_ or not rel_:
             out.append(undecided(R, key, 'wake of the close notifier or queuing of on_drop not found in PipeStream::drop'))
-        elif all(any(w_ != r_ and dominates(dr, w_, r_) for w_ in wakes_) for r_ in rel_):
+        elif not any(w_ == r_ or (dr.blocks[r_]['term'].get('target') is not None and w_ in dr.reachable_blocks(dr.blocks[r_]['term']['target'])) for w_ in wakes_ for r_ in rel_):
             out.append(ok(R, key, 'the close notifier is woken before on_drop is queued on the disposal queue', fn=dr.name))
         else:
             out.append(bad(R, key, 'on_drop is queued on the disposal queue before the close notifier is woken: the poll that the wake runs on this thread can then hold the last Arc<Desync> '
